@@ -1,28 +1,21 @@
 package lintcmd
 
 // This file exists only in the instrumented scratch copy (it is dropped in
-// by /verif/bin/mkscratch). It gives the harness packages an entry point
-// that performs exactly what Command.Execute -> Command.lint performs for a
-// plain (non -matrix) invocation, except that (a) the cache is opened on an
-// explicit directory instead of through the process-global cache.Default,
-// (b) the working directory is a parameter instead of the process' cwd and
-// (c) nothing calls os.Exit. The equivalence with the real binary is
-// checked continuously by the harnesses' sim-vs-real cross-checks.
+// by /verif/bin/mkscratch). It is the entry point of a simulated linter
+// process: it does what cmd/staticcheck's main does (NewCommand, ParseFlags,
+// AddAnalyzers) and then calls the real Command.Execute. What an OS process
+// takes from its environment - working directory, STATICCHECK_CACHE, the
+// environment, the identity of the binary - is the simulated process'
+// context (verifsim.ProcContext); the instrumenter redirects the calls that
+// read them (cache.Default, os.Environ, computeSalt in this package;
+// loader.Graph in package runner). Nothing of Command.Execute, Command.lint,
+// newLinter, linter.run or linter.lint is replicated here.
 
 import (
-	"fmt"
-	"maps"
 	"os"
-	"slices"
 
 	"honnef.co/go/tools/analysis/lint"
-	"honnef.co/go/tools/config"
 	"honnef.co/go/tools/internal/verifsim"
-	"honnef.co/go/tools/lintcmd/cache"
-	"honnef.co/go/tools/lintcmd/runner"
-
-	"golang.org/x/tools/go/buildutil"
-	"golang.org/x/tools/go/packages"
 )
 
 // VerifInvocation describes one run of the linter "binary".
@@ -34,98 +27,37 @@ type VerifInvocation struct {
 	Salt     []byte   // stands for the binary's build id
 }
 
+func init() {
+	// no SIGUSR1/SIGINFO progress goroutine in simulated processes: it
+	// never ends, and signals are per OS process
+	infoSignals = nil
+}
+
 // VerifLint runs one linter invocation and returns the exit status. Output
 // goes to the calling simulated process' stdout/stderr.
 func VerifLint(analyzers []*lint.Analyzer, inv VerifInvocation) int {
+	verifsim.SetProcContext(&verifsim.ProcContext{Dir: inv.Dir, CacheDir: inv.CacheDir, Env: inv.Env, Salt: inv.Salt})
+	defer verifsim.SetProcContext(nil)
 	cmd := NewCommand("staticcheck")
 	cmd.ParseFlags(inv.Args)
 	cmd.AddAnalyzers(analyzers...)
+	return cmd.Execute()
+}
 
-	// --- Command.Execute
-	defaultChecks := []string{"all"}
-	for _, a := range cmd.analyzers {
-		if a.Doc.NonDefault {
-			defaultChecks = append(defaultChecks, "-"+a.Analyzer.Name)
-		}
+// verifEnviron replaces os.Environ() in this package.
+func verifEnviron() []string {
+	env := os.Environ()
+	if ctx := verifsim.CurProcContext(); ctx != nil {
+		env = append(env, ctx.Env...)
 	}
-	// Execute appends in map order; the order of exclusions cannot matter
-	// to filterAnalyzerNames, but keep the global deterministic for replay.
-	slices.Sort(defaultChecks[1:])
-	config.DefaultConfig.Checks = defaultChecks
+	return env
+}
 
-	// --- Command.lint
-	switch cmd.flags.formatter {
-	case "text", "stylish", "json", "sarif", "null":
-	default:
-		fmt.Fprintf(verifsim.Stderr(), "unsupported output format %q\n", cmd.flags.formatter)
-		return 2
+// verifSalt replaces computeSalt() in this package (which hashes the
+// running executable: the simulation engine, ~100 MB, once per run).
+func verifSalt() ([]byte, error) {
+	if ctx := verifsim.CurProcContext(); ctx != nil && ctx.Salt != nil {
+		return ctx.Salt, nil
 	}
-	bc := buildConfig{Envs: inv.Env}
-	if cmd.flags.tags != "" {
-		tf := buildutil.TagsFlag{}
-		if err := tf.Set(cmd.flags.tags); err != nil {
-			fmt.Fprintln(verifsim.Stderr(), fmt.Errorf("invalid value %q for flag -tags: %s", cmd.flags.tags, err))
-			return 1
-		}
-		bc.Flags = []string{"-tags", cmd.flags.tags}
-	}
-	cs := slices.Collect(maps.Values(cmd.analyzers))
-	opts := options{
-		analyzers: cs,
-		patterns:  cmd.flags.fs.Args(),
-		lintTests: cmd.flags.tests,
-		goVersion: string(cmd.flags.goVersion),
-		config: config.Config{
-			Checks: cmd.flags.checks,
-		},
-	}
-
-	// --- newLinter, with an explicit cache directory
-	if err := verifMkdirAll(inv.CacheDir); err != nil {
-		fmt.Fprintln(verifsim.Stderr(), err)
-		return 1
-	}
-	c, err := cache.Open(inv.CacheDir)
-	if err != nil {
-		fmt.Fprintln(verifsim.Stderr(), err)
-		return 1
-	}
-	cache.VerifResetProcessGlobals()
-	cache.SetSalt(inv.Salt)
-	as := make(map[caseFoldedString]*lint.Analyzer, len(opts.analyzers))
-	for _, a := range opts.analyzers {
-		as[makeCaseFoldedString(a.Analyzer.Name)] = a
-	}
-	l := &linter{cache: c, analyzers: as, opts: opts}
-
-	// --- linter.run (without the SIGINFO goroutine)
-	cfg := &packages.Config{Dir: inv.Dir}
-	if l.opts.lintTests {
-		cfg.Tests = true
-	}
-	cfg.BuildFlags = bc.Flags
-	cfg.Env = append(os.Environ(), bc.Envs...)
-	r, err := runner.New(l.opts.config, l.cache)
-	if err != nil {
-		fmt.Fprintln(verifsim.Stderr(), err)
-		return 1
-	}
-	r.GoVersion = l.opts.goVersion
-	res, err := l.lint(r, cfg, l.opts.patterns)
-	for i := range res.Diagnostics {
-		res.Diagnostics[i].BuildName = bc.Name
-	}
-	if err != nil {
-		fmt.Fprintln(verifsim.Stderr(), err)
-		return 1
-	}
-	for _, w := range res.Warnings {
-		fmt.Fprintln(verifsim.Stderr(), "warning:", w)
-	}
-	runs := []run{runFromLintResult(res)}
-
-	l.cache.Close()
-
-	diags := mergeRuns(runs)
-	return cmd.printDiagnostics(cs, diags)
+	return []byte("verif-simulated-binary-build-id"), nil
 }
